@@ -375,3 +375,434 @@ def r15_10(ctx):
                       f"{sc.label}, dt = 1/8, forward over [0, {T}] and back: {'; '.join(bad[:2])}: the reverse solve is not the "
                       f"algebraic inverse of the forward solve", "every forward state reconstructed")
     ctx.floor("R15.10", 4)
+
+
+# ------------------------------------------------------------------------------------------------ R12.11
+def _chained_driver(model, dom, sc, ts, dt, y0=None, extra0=None):
+    """The real `integrate` over `ts` with `self.step` an uninterpreted *function* of (t0, t1, state, extra state): the
+    outputs are canonical forms over STEP_Y / STEP_E atoms, which name the whole history of a state (every step taken
+    before it, with its end points).  Returns (outputs, final extra state, step pairs)."""
+    sde = solverkit.make_sde()
+    sde.attrs["sde_type"], sde.attrs["noise_type"] = sc.sde_type, sc.noise_type
+    bm = solverkit.make_bm(solverkit.BMLog())
+    it = Interp(model, _Hooks(2))
+    it.max_loop = 4096
+    it.size_limit = SIZE_LIMIT
+    so = solverkit.solver_obj(model, sc.cls, sde, bm, dict(sc.options),
+                              extra_attrs={"dt": F(dt), "adaptive": False, "dt_min": F(1, 10 ** 5)})
+    pairs = []
+
+    def step(interp, args, kwargs, node, fi):
+        if len(args) != 4 or kwargs:
+            raise AnalysisError("self.step is expected to be called with four positional arguments", where=astq.loc(fi, node))
+        t0, t1, y, e = args
+        pairs.append(tuple(x.const_value() if isinstance(x, Rat) else x for x in (t0, t1)))
+        e0 = e[0] if isinstance(e, (tuple, list)) and len(e) == 1 else nf.sym("EXTRA_OF_ANOTHER_SHAPE")
+        return _step_y(t0, t1, y, e0), (_step_e(t0, t1, y, e0),)
+
+    so.attrs["step"] = Intrinsic("step", step, params=["t0", "t1", "y0", "extra0"])
+    integ = model.lookup_method(sc.cls, "integrate")
+    ys, extra = it.call_function(integ, [so, nf.sym("y0") if y0 is None else y0, list(ts),
+                                         (nf.sym("X0"),) if extra0 is None else tuple(extra0)], {})
+    if isinstance(ys, Cat):
+        ys = list(ys.parts)
+    elif ik.is_output_buffer(ys):
+        ys = [v for _, v in ik.output_writes(ys)]
+    return list(ys), extra, pairs
+
+
+_STEP_NAMES = {}      # (kind, t0, t1, canonical state, canonical extra state) -> short tensor symbol
+
+
+def _interned(kind, t0, t1, y, e):
+    """STEP_<kind>[t0, t1, y, e] as an uninterpreted function whose values are interned as short symbols: equal arguments
+    (as canonical forms) give the same symbol, different ones different symbols -- and the canonical forms stay small
+    however long the chain of steps is (a nested atom would be re-sorted and re-hashed at every operation)."""
+    k = (kind, repr(Rat.lift(t0).key()), repr(Rat.lift(t1).key()), repr(Rat.lift(y).key()), repr(Rat.lift(e).key()))
+    name = _STEP_NAMES.get(k)
+    if name is None:
+        name = _STEP_NAMES[k] = f"{kind}{len(_STEP_NAMES)}"
+    return nf.sym(name)
+
+
+def _step_y(t0, t1, y, e):
+    return _interned("S", t0, t1, y, e)
+
+
+def _step_e(t0, t1, y, e):
+    return _interned("E", t0, t1, y, e)
+
+
+def _random_output_times(rnd, dt):
+    """A strictly increasing list of output times on the lattice ts[0] + j dt/32: gaps from dt/32 (many outputs inside one
+    step) to 5/2 dt (outputs steps apart), aligned with the dt grid or not, starts negative, zero or positive."""
+    u = dt / 32
+    start = rnd.choice([F(0), F(0), -rnd.randint(1, 200) * u, rnd.randint(1, 200) * u, rnd.randint(-3, 3) * dt])
+    n = rnd.randint(2, 7)
+    style = rnd.random()
+    ts = [start]
+    for _ in range(n - 1):
+        if style < 0.25:
+            gap = rnd.randint(1, 12) * u                      # crowded: several outputs inside one step
+        elif style < 0.5:
+            gap = rnd.randint(1, 3) * 32 * u                  # on the grid (when the start is)
+        else:
+            gap = rnd.randint(1, 80) * u
+        ts.append(ts[-1] + gap)
+    # intermediate output times a hair before / after where they were (grid points among them): 1e-4 .. 1e-12 of a step.
+    # The end points stay on the lattice, so that the remainder of the last step is never of rounding-error size (that
+    # case, where the repaired driver merges the remainder into the last step, is R12.7's).
+    for j in range(1, len(ts) - 1):
+        if rnd.random() < 0.3:
+            moved = ts[j] + rnd.choice([-1, 1]) * dt / 10 ** rnd.choice([4, 6, 9, 12])
+            if ts[j - 1] < moved < ts[j + 1]:
+                ts[j] = moved
+    return ts
+
+
+def r12_11(ctx):
+    """The statement of C12 itself, for seeded random output-time lists: with `self.step` an uninterpreted function the real
+    driver's outputs must be -- by this rule's own loop along ts[0] + k dt clipped to ts[-1] -- ys[0] = y0, the grid state at
+    a grid time, the linear interpolant of the two neighbouring grid states inside a step; the steps taken are the
+    consecutive grid points; the extra state handed back is the last grid state's; one output per output time."""
+    import random
+    rep, model = ctx.rep, ctx.model
+    rep.rule("R12.11", "seeded random output-time lists (crowded, sparse, on and off the grid, shifted and negative starts, four "
+                       "step sizes), real driver with an uninterpreted chained step: steps taken = ts[0] + k dt clipped to "
+                       "ts[-1]; outputs = grid states / linear interpolants of the neighbouring grid states; ys[0] = y0; extra "
+                       "state = the last grid state's")
+    dom = solvers.Domains(model)
+    drivers = {}
+    for sc in steps.scenarios(model, dom):
+        # the driver is one function, but it can see the declared noise and SDE type: one scenario for each pair
+        drivers.setdefault((model.lookup_method(sc.cls, "integrate").key, str(sc.noise_type), str(sc.sde_type)), sc)
+    n_lists = 25 if mode() in ("light", "skip") else (100 if ctx.tier == "quick" else 1500)
+    for (key, noise, kind), sc in sorted(drivers.items()):
+        integ = model.lookup_method(sc.cls, "integrate")
+        rep.analysed(integ)
+        rnd = random.Random(f"R12.11/{ctx.seed}/{noise}/{kind}")
+        key = f"{key}::R12.11::{noise}/{kind}"
+        failures = {}
+        done = 0
+        for i in range(n_lists):
+            dt = rnd.choice([F(1, 8), F(1, 3), F(5, 7), F(2)])
+            ts = _random_output_times(rnd, dt)
+            T = ts[-1]
+            # by definition
+            t, y, e = ts[0], nf.sym("y0"), nf.sym("X0")
+            state, grid = {t: y}, []
+            while t < T:
+                nxt = min(t + dt, T)
+                y, e = _step_y(t, nxt, y, e), _step_e(t, nxt, y, e)
+                grid.append((t, nxt))
+                state[nxt] = y
+                t = nxt
+            shown = f"dt = {dt}, ts = [{', '.join(str(x) for x in ts)}]"
+            try:
+                ys, extra, pairs = _chained_driver(model, dom, sc, ts, dt)
+            except SimRaise as ex:
+                failures.setdefault("raises", f"{shown}: the solve raises {ex.exc_name}: {ex.message}")
+                continue
+            done += 1
+            if pairs != grid:
+                k = next((j for j, (a, b) in enumerate(zip(pairs, grid)) if a != b), min(len(pairs), len(grid)))
+                took = f"steps from {pairs[k][0]} to {pairs[k][1]}" if k < len(pairs) else "stops"
+                due = f"({grid[k][0]}, {grid[k][1]})" if k < len(grid) else "no further step"
+                failures.setdefault("step-sequence", f"{shown}: step {k + 1}: the driver {took} where the grid ts[0] + k dt has {due}")
+                continue                       # the values of another grid are not compared
+            if len(ys) != len(ts):
+                failures.setdefault("one-output-per-time", f"{shown}: {len(ys)} outputs")
+                continue
+            if not same(ys[0], nf.sym("y0")):
+                failures.setdefault("ys0", f"{shown}: ys[0] is `{ys[0]}`")
+            knots = sorted(state)
+            for t, got in zip(ts[1:], ys[1:]):
+                if t in state:
+                    if not same(got, state[t]):
+                        failures.setdefault("grid-output", f"{shown}: the output at the grid time {t} is not the grid state")
+                else:
+                    lo = max(g for g in knots if g < t)
+                    hi = min(g for g in knots if g > t)
+                    want = Rat.lift(state[lo]) + (t - lo) / (hi - lo) * (Rat.lift(state[hi]) - Rat.lift(state[lo]))
+                    if not same(got, want):
+                        failures.setdefault("interpolated-output", f"{shown}: the output at t = {t}, inside the step ({lo}, {hi}), is "
+                                                                   f"not the linear interpolant of the two grid states")
+            ex0 = extra[0] if isinstance(extra, (tuple, list)) and len(extra) == 1 else extra
+            if not same(ex0, e):
+                failures.setdefault("extra-state", f"{shown}: the extra solver state handed back is not the last grid state's")
+        for clause in ("raises", "step-sequence", "one-output-per-time", "ys0", "grid-output", "interpolated-output", "extra-state"):
+            rep.check(clause not in failures, "R12.11", astq.loc(integ), f"{key}::{clause}",
+                      f"{failures.get(clause)} (first of the {n_lists} seeded lists that fails this clause)",
+                      f"{done} seeded output-time lists")
+    ctx.floor("R12.11", 7 * 8)
+
+
+# ------------------------------------------------------------------------------------------------ R13.9
+def r13_9(ctx):
+    """C13's statement for seeded random chunkings: a horizon of 1..12 steps (the last one clipped or not), cut at a random
+    subset of its grid points, each chunk solved by the real driver from the state and extra state the previous chunk
+    returned (with further output times inside the chunks): the states at the cuts, the final state and the final extra
+    state are the one-shot solve's.  `self.step` is an uninterpreted function whose values name their whole history."""
+    import random
+    rep, model = ctx.rep, ctx.model
+    rep.rule("R13.9", "seeded random chunkings of a fixed-step solve at grid points (any number of chunks, clipped last step, "
+                      "further outputs inside the chunks), real driver with an uninterpreted chained step: every cut state, the "
+                      "final state and the final extra state equal the one-shot solve's")
+    dom = solvers.Domains(model)
+    drivers = {}
+    for sc in steps.scenarios(model, dom):
+        drivers.setdefault((model.lookup_method(sc.cls, "integrate").key, str(sc.noise_type), str(sc.sde_type)), sc)
+    n_cases = 15 if mode() in ("light", "skip") else (60 if ctx.tier == "quick" else 800)
+    for (key, noise, kind), sc in sorted(drivers.items()):
+        integ = model.lookup_method(sc.cls, "integrate")
+        rep.analysed(integ)
+        rnd = random.Random(f"R13.9/{ctx.seed}/{noise}/{kind}")
+        failures, done = {}, 0
+        for i in range(n_cases):
+            dt = rnd.choice([F(1, 8), F(1, 3), F(5, 7), F(2)])
+            t0 = rnd.choice([F(0), -rnd.randint(1, 200) * dt / 32, rnd.randint(1, 200) * dt / 32])
+            n = rnd.randint(2, 12)
+            T = t0 + n * dt - rnd.choice([0, 0, rnd.randint(1, 31)]) * dt / 32            # clipped last step or not
+            inner = [t0 + k * dt for k in range(1, n) if t0 + k * dt < T]
+            cuts = [t0] + sorted(rnd.sample(inner, rnd.randint(1, len(inner)))) + [T] if inner else [t0, T]
+            shown = f"dt = {dt}, [t0, T] = [{t0}, {T}], cuts at [{', '.join(str(c) for c in cuts[1:-1])}]"
+            try:
+                one, one_extra, _ = _chained_driver(model, dom, sc, cuts, dt)
+                y, extra = nf.sym("y0"), None
+                for j, (a, b) in enumerate(zip(cuts[:-1], cuts[1:])):
+                    # further output times inside the chunk (they must not matter)
+                    mids = sorted({a + (b - a) * F(rnd.randint(1, 63), 64) for _ in range(rnd.randint(0, 2))})
+                    ys, extra, _ = _chained_driver(model, dom, sc, [a] + mids + [b], dt, y0=y, extra0=extra)
+                    y = ys[-1]
+                    if not same(y, one[j + 1]):
+                        failures.setdefault("cut-state", f"{shown}: after chunk {j + 1} the state at t = {b} is not the one-shot solve's")
+                        break
+                else:
+                    if not same(tuple(extra), tuple(one_extra)):
+                        failures.setdefault("extra-state", f"{shown}: the final extra solver state is not the one-shot solve's")
+                done += 1
+            except SimRaise as ex:
+                failures.setdefault("raises", f"{shown}: a solve raises {ex.exc_name}: {ex.message}")
+        for clause in ("raises", "cut-state", "extra-state"):
+            rep.check(clause not in failures, "R13.9", astq.loc(integ), f"{key}::R13.9::{noise}/{kind}::{clause}",
+                      f"{failures.get(clause)} (first of the {n_cases} seeded chunkings that fails this clause)",
+                      f"{done} seeded chunkings")
+    ctx.floor("R13.9", 3 * 8)
+
+
+# ------------------------------------------------------------------------------------------------ R14.9
+class _NoTermination(Exception):
+    pass
+
+
+class _ScriptedController(_Hooks):
+    """The adaptive driver's two questions -- how large is the error of this trial, what does the controller propose next --
+    answered from a seeded script: an error from a fixed menu (well below 1, exactly 1, just above 1, huge) and a factor
+    the real controller could return for it (rejected: [1/5, 1); accepted: [1, 7/5])."""
+    CAP = 4000
+
+    def __init__(self, rnd):
+        _Hooks.__init__(self, 2)
+        self.rnd = rnd
+        self.step_calls = []       # (t0, t1, y, e, result y, result e)
+        self.trials = []           # {calls, err_args, err, length, factor}
+
+    def on_call(self, interp, callee, args, kwargs, node, fi):
+        from ..interp import Closure
+        if isinstance(callee, Closure) and callee.fi is not None and callee.fi.name == "compute_error":
+            if len(self.trials) >= self.CAP:
+                raise _NoTermination()
+            err = self.rnd.choice([F(1, 100), F(1, 10), F(1, 2), F(1), F(101, 100), F(50)])
+            self.trials.append({"calls": self.step_calls[:], "err_args": list(args[:2]), "tols": list(args[2:4]), "err": err})
+            del self.step_calls[:]
+            return err
+        if isinstance(callee, Closure) and callee.fi is not None and callee.fi.name == "update_step_size":
+            a = list(args)
+            err = kwargs.get("error_estimate", a[0] if a else None)
+            prev = kwargs.get("prev_step_size", a[1] if len(a) > 1 else None)
+            prev = prev.const_value() if isinstance(prev, Rat) else prev
+            if not isinstance(prev, (Fraction, int)) or not self.trials:
+                raise AnalysisError("the controller is asked about a step size that is no concrete number in this replay",
+                                    where=astq.loc(fi, node))
+            f = self.rnd.choice([F(1, 5), F(1, 2), F(9, 10)] if err > 1 else [F(1), F(6, 5), F(7, 5)])
+            self.trials[-1].update(asked_err=err, asked_len=F(prev), factor=f)
+            return F(prev) * f, nf.sym(f"RATIO{len(self.trials)}", True)
+        return _Hooks.on_call(self, interp, callee, args, kwargs, node, fi)
+
+
+def _adaptive_solve(model, dom, sc, ts, dt, dt_min, rnd, cap):
+    sde = solverkit.make_sde()
+    sde.attrs["sde_type"], sde.attrs["noise_type"] = sc.sde_type, sc.noise_type
+    bm = solverkit.make_bm(solverkit.BMLog())
+    hooks = _ScriptedController(rnd)
+    hooks.CAP = cap
+    it = Interp(model, hooks)
+    it.max_loop = 3 * cap
+    it.size_limit = SIZE_LIMIT
+    so = solverkit.solver_obj(model, sc.cls, sde, bm, dict(sc.options),
+                              extra_attrs={"dt": F(dt), "adaptive": True, "dt_min": F(dt_min),
+                                           "rtol": nf.sym("RTOL", True), "atol": nf.sym("ATOL", True)})
+
+    def step(interp, args, kwargs, node, fi):
+        if len(args) != 4 or kwargs:
+            raise AnalysisError("self.step is expected to be called with four positional arguments", where=astq.loc(fi, node))
+        t0, t1, y, e = args
+        t0, t1 = (x.const_value() if isinstance(x, Rat) else x for x in (t0, t1))
+        e0 = e[0] if isinstance(e, (tuple, list)) and len(e) == 1 else nf.sym("EXTRA_OF_ANOTHER_SHAPE")
+        ry, re_ = _step_y(t0, t1, y, e0), _step_e(t0, t1, y, e0)
+        hooks.step_calls.append((t0, t1, y, e0, ry, re_))
+        return ry, (re_,)
+
+    so.attrs["step"] = Intrinsic("step", step, params=["t0", "t1", "y0", "extra0"])
+    integ = model.lookup_method(sc.cls, "integrate")
+    ys, extra = it.call_function(integ, [so, nf.sym("y0"), list(ts), (nf.sym("X0"),)], {})
+    if isinstance(ys, Cat):
+        ys = list(ys.parts)
+    elif ik.is_output_buffer(ys):
+        ys = [v for _, v in ik.output_writes(ys)]
+    return list(ys), extra, hooks
+
+
+def r14_9(ctx):
+    """C14's statement, clause by clause, on the trace of the real adaptive driver under seeded scripted schedules (errors and
+    controller factors from a script, `self.step` an uninterpreted function whose values name their history)."""
+    import random
+    rep, model = ctx.rep, ctx.model
+    rep.rule("R14.9", "seeded scripted controller schedules (errors below / at / above 1, shrink factors 1/5..9/10, growth factors "
+                      "1..7/5, dt_min above dt, a quarter and a sixteenth of dt), real adaptive driver with an uninterpreted "
+                      "chained step: terminates; every trial = one full step and two chained half steps through the midpoint from "
+                      "the current state, its error asked of exactly those two results; trials start at the current time, are not "
+                      "shorter than dt_min unless clipped to ts[-1]; error <= 1 => accepted, error > 1 with a proposal above "
+                      "dt_min => rejected, state unchanged, retried strictly smaller; accepted steps tile [ts[0], ts[-1]]; outputs = "
+                      "two-half-step states / their linear interpolants; extra state = the last accepted step's")
+    dom = solvers.Domains(model)
+    drivers = {}
+    for sc in steps.scenarios(model, dom):
+        drivers.setdefault((model.lookup_method(sc.cls, "integrate").key, str(sc.noise_type), str(sc.sde_type)), sc)
+    n_cases = 10 if mode() in ("light", "skip") else (40 if ctx.tier == "quick" else 500)
+    clauses = ("raises", "terminates", "trial-shape", "error-arguments", "trial-start", "trial-length", "accepts", "rejects",
+               "retried-smaller", "tiling", "ends-at-the-end", "one-output-per-time", "ys0", "knot-output", "interpolated-output",
+               "extra-state")
+    for (key, noise, kind), sc in sorted(drivers.items()):
+        integ = model.lookup_method(sc.cls, "integrate")
+        rep.analysed(integ)
+        rnd = random.Random(f"R14.9/{ctx.seed}/{noise}/{kind}")
+        failures, done, n_trials = {}, 0, 0
+        for i in range(n_cases):
+            dt = rnd.choice([F(1, 8), F(1, 3)])
+            dt_min = rnd.choice([dt * 2, dt / 4, dt / 16])
+            ts = _random_output_times(rnd, dt)
+            T = ts[-1]
+            # a driver that follows the statement needs at most (T - t0) / dt_min accepted steps, and between two of them at
+            # most log(16) / log(10/9) < 28 rejections (every rejection shrinks by 9/10 or more, down to dt_min)
+            hooks_cap = int(30 * (T - ts[0]) / dt_min) + 30
+            shown = f"dt = {dt}, dt_min = {dt_min}, ts = [{', '.join(str(x) for x in ts)}], schedule #{i}"
+            bad = lambda clause, text: failures.setdefault(clause, f"{shown}: {text}")       # noqa: E731
+            try:
+                ys, extra, hooks = _adaptive_solve(model, dom, sc, ts, dt, dt_min, rnd, hooks_cap)
+            except _NoTermination:
+                bad("terminates", f"more than {hooks_cap} trials")
+                continue
+            except SimRaise as ex:
+                bad("raises", f"the solve raises {ex.exc_name}: {ex.message}")
+                continue
+            done += 1
+            n_trials += len(hooks.trials)
+            if hooks.step_calls:
+                bad("trial-shape", f"{len(hooks.step_calls)} step(s) taken after the last error estimate")
+            t, y, e = ts[0], nf.sym("y0"), nf.sym("X0")
+            knots = {t: y}
+            prev_rejected_len = None
+            ok = True
+            for k, tr in enumerate(hooks.trials):
+                calls = tr["calls"]
+                where = f"trial {k + 1}"
+                full = [c for c in calls if same(c[2], y) and same(c[3], e) and c[0] == t]
+                if len(calls) != 3 or len(full) != 2:
+                    bad("trial-start" if len(calls) == 3 and not full else "trial-shape",
+                        f"{where}: steps {[(str(c[0]), str(c[1])) for c in calls]} -- expected one full step and the first half "
+                        f"step from the current state at t = {t}")
+                    ok = False
+                    break
+                (fa, fb), (ha, hm) = sorted(((c[0], c[1]) for c in full), key=lambda p: p[1], reverse=True)
+                c_full = next(c for c in full if c[1] == fb)
+                c_h1 = next(c for c in full if c[1] == hm and c is not c_full)
+                c_h2 = next(c for c in calls if c is not c_full and c is not c_h1)
+                if not (hm == (fa + fb) / 2 and c_h2[0] == hm and c_h2[1] == fb and same(c_h2[2], c_h1[4]) and same(c_h2[3], c_h1[5])):
+                    bad("trial-shape", f"{where} over ({fa}, {fb}): the half steps are ({c_h1[0]}, {c_h1[1]}) and ({c_h2[0]}, {c_h2[1]}), "
+                                       f"or the second does not start from the first's result")
+                    ok = False
+                    break
+                ea = tr["err_args"]
+                if not (len(ea) == 2 and ((same(ea[0], c_full[4]) and same(ea[1], c_h2[4])) or (same(ea[1], c_full[4]) and same(ea[0], c_h2[4])))):
+                    bad("error-arguments", f"{where}: the error is not estimated from the full step's and the two half steps' results")
+                if not (fa < fb <= T):
+                    bad("tiling", f"{where}: the trial ({fa}, {fb}) does not advance inside [ts[0], ts[-1]]")
+                    ok = False
+                    break
+                length = fb - fa
+                if length < dt_min and fb != T:
+                    bad("trial-length", f"{where}: a trial of length {length} < dt_min that is not clipped to ts[-1]")
+                if prev_rejected_len is not None and not length < prev_rejected_len:
+                    bad("retried-smaller", f"{where}: the retry after a rejected trial of length {prev_rejected_len} has length {length}")
+                # what became of the trial: read off the next trial's start (or the returned state, for the last one)
+                if k + 1 < len(hooks.trials):
+                    nxt = [c for c in hooks.trials[k + 1]["calls"]]
+                    starts = {c[0] for c in nxt}
+                    if fb in starts and any(same(c[2], c_h2[4]) and same(c[3], c_h2[5]) for c in nxt if c[0] == fb):
+                        accepted = True
+                    elif fa in starts and any(same(c[2], y) and same(c[3], e) for c in nxt if c[0] == fa):
+                        accepted = False
+                    else:
+                        bad("tiling", f"{where} over ({fa}, {fb}): the next trial starts neither from its two-half-step result at {fb} "
+                                      f"nor from the unchanged state at {fa}")
+                        ok = False
+                        break
+                else:
+                    ex0 = extra[0] if isinstance(extra, (tuple, list)) and len(extra) == 1 else extra
+                    accepted = same(ex0, c_h2[5])
+                err = tr["err"]
+                proposal = tr.get("asked_len", length) * tr.get("factor", 1)
+                if tr.get("asked_err") != err or tr.get("asked_len") != length:
+                    bad("error-arguments", f"{where}: the controller is asked about error {tr.get('asked_err')} and a step of "
+                                           f"{tr.get('asked_len')}; the trial had error {err} and length {length}")
+                if err <= 1 and not accepted:
+                    bad("accepts", f"{where}: error {err} <= 1 and the step is not accepted")
+                if err > 1 and proposal > dt_min and accepted:
+                    bad("rejects", f"{where}: error {err} > 1, the controller proposes {proposal} > dt_min, and the step is accepted")
+                if accepted:
+                    t, y, e = fb, c_h2[4], c_h2[5]
+                    knots[t] = y
+                    prev_rejected_len = None
+                else:
+                    prev_rejected_len = length
+            if not ok:
+                continue
+            if t != T:
+                bad("ends-at-the-end", f"the accepted steps end at {t}, not at ts[-1] = {T}")
+                continue
+            ex0 = extra[0] if isinstance(extra, (tuple, list)) and len(extra) == 1 else extra
+            if not same(ex0, e):
+                bad("extra-state", "the extra solver state handed back is not the last accepted step's")
+            if len(ys) != len(ts):
+                bad("one-output-per-time", f"{len(ys)} outputs")
+                continue
+            if not same(ys[0], nf.sym("y0")):
+                bad("ys0", f"ys[0] is `{ys[0]}`")
+            ks = sorted(knots)
+            for tt, got in zip(ts[1:], ys[1:]):
+                if tt in knots:
+                    if not same(got, knots[tt]):
+                        bad("knot-output", f"the output at the accepted time {tt} is not the two-half-step state")
+                else:
+                    lo = max(g for g in ks if g < tt)
+                    hi = min(g for g in ks if g > tt)
+                    want = Rat.lift(knots[lo]) + (tt - lo) / (hi - lo) * (Rat.lift(knots[hi]) - Rat.lift(knots[lo]))
+                    if not same(got, want):
+                        bad("interpolated-output", f"the output at t = {tt}, inside the accepted step ({lo}, {hi}), is not the linear "
+                                                   f"interpolant of the two accepted states")
+        for clause in clauses:
+            rep.check(clause not in failures, "R14.9", astq.loc(integ), f"{key}::R14.9::{noise}/{kind}::{clause}",
+                      f"{failures.get(clause)} (first of the {n_cases} seeded schedules that fails this clause)",
+                      f"{done} seeded schedules, {n_trials} trials")
+    ctx.floor("R14.9", len(clauses) * 8)
